@@ -144,7 +144,26 @@ def curated_meshes():
     r2lo, r2hi = refine_region((2, 4), (4, 6))           # finer x 4..9, y 8..13
     l2 = tile(r2lo, r2hi, [[8], []])
     M.append(Mesh('2d-3lev', 2, (4, 4), [l0, l1, l2]))
+    # the order in which a level header lists its boxes is arbitrary: reversed / rotated listings
+    by = {m.name: m for m in M}
+    M.append(reorder(by['3d-2lev-mixed'], 'reversed'))
+    M.append(reorder(by['2d-2lev'], 'rotated'))
+    M.append(reorder(by['3d-3box-x'], 'rotated'))
     return M
+
+
+def reorder(mesh, how, rnd=None):
+    boxes = []
+    for lv in mesh.boxes:
+        lv = list(lv)
+        if how == 'reversed':
+            lv = lv[::-1]
+        elif how == 'rotated':
+            lv = lv[1:] + lv[:1]
+        else:
+            rnd.shuffle(lv)
+        boxes.append(lv)
+    return Mesh(mesh.name + '/' + how, mesh.ndims, mesh.ncell0, boxes)
 
 
 def random_mesh(rnd, ndims, max_levels=2, max_boxes=4, max_extent=6):
@@ -191,6 +210,8 @@ def random_mesh(rnd, ndims, max_levels=2, max_boxes=4, max_extent=6):
             t = tile(flo, fhi, [[] for _ in range(ndims)])
         boxes.append(t)
         region = (flo, fhi)
+    # level headers list their boxes in arbitrary order
+    boxes = [rnd.sample(lv, len(lv)) for lv in boxes]
     return Mesh('rand', ndims, ncell0, boxes)
 
 
